@@ -715,7 +715,12 @@ class ComputeGraph(MultiDiGraph):
             code_gen.add_linebreak()
             for d_str, group in delay_groups.items():
                 d_safe = d_str.replace('.', 'p').replace('-', 'm')
-                code_gen.add_code_line(f"_yhist_{d_safe} = hist(t - {d_str})")
+                # same time convention as the vector field (see `add_var_hist`): with a fixed step size `t` is the
+                # step counter and the history is addressed in time units
+                if dt is not None and not dt_adapt:
+                    code_gen.add_code_line(f"_yhist_{d_safe} = hist(t*{dt:.10e} - {d_str})")
+                else:
+                    code_gen.add_code_line(f"_yhist_{d_safe} = hist(t - {d_str})")
 
         # allocate instantaneous Jacobian (backend-aware: emits numpy `zeros`
         # for the default path, jnp.zeros for JaxBackend, etc.)
